@@ -18,7 +18,7 @@ COQ_CHECK = 'Balancer.check_case'
 COQ_EXPLAIN = 'Balancer.explain_case'
 SHARD = 40
 WORKERS = 6
-RULE = ('30% with channels whose Close() fails in-flight requests synchronously, 30% with leaves whose Close() raises; 20% of the histories run (monitor only) on a REAL ApertureBalancerSink (as in C03/C05; half with slow-opening channels, i.e. the continuations of Open() only run at the next notification so that several expansions fall into one open) with the C04 oracles on the mock channels: no request to the channel of a departed member, every channel of a departing member closed at once iff idle or marked down else by its last completion, the channel of a current member closed only when it left the aperture idle or marked down, never twice; 15% (monitor only) build the member channels with the real SharedSinkProvider/RefCountedSink around the mock channel (leave with requests in flight, re-join, leave again, drain): the shared connection is never closed while a request dispatched to it is outstanding and is closed once the endpoint departed and drained; 70% with fresh endpoint objects per notification; about 40% of the completions end with the frame above the balancer RAISING from its handler (the harness catches it where the transport greenlet would; the release must already have run) or issuing a follow-up request re-entrantly from inside its handler (recorded as Complete then Dispatch: the completed request must already be released); in 65% of the histories the real scales.sink.ClientTimeoutSink sits in front of the balancer (requests carry a deadline; scales.sink.GLOBAL_TIMER_QUEUE is a stub whose recorded action is run by a timeout completion, i.e. _TimeoutHelper itself completes the call); 15% use a provider with endpoint_name; seeded random histories over 1-12 members (+ up to 3 spare endpoints), 20-200 relative operations from phase profiles '
+RULE = ('audit additions: a second, independent balancer instance working in the same process (20%); channels that fail a request INLINE inside AsyncProcessRequest when closed (25%, recorded as Dispatch then Complete) with callers that retry from inside their failure handler (also on NoMembersError); callers whose handler raises a BaseException; channels whose Open() fails (every n-th, asynchronously reported) or raises synchronously during a join; the caller of a request failed inside Close() retrying from inside it; initial channel state Busy; (thorough) 2% histories of 600-1200 operations; real-aperture histories record hub continuations as steps of their own; 30% with channels whose Close() fails in-flight requests synchronously, 30% with leaves whose Close() raises; 20% of the histories run (monitor only) on a REAL ApertureBalancerSink (as in C03/C05; half with slow-opening channels, i.e. the continuations of Open() only run at the next notification so that several expansions fall into one open) with the C04 oracles on the mock channels: no request to the channel of a departed member, every channel of a departing member closed at once iff idle or marked down else by its last completion, the channel of a current member closed only when it left the aperture idle or marked down, never twice; 15% (monitor only) build the member channels with the real SharedSinkProvider/RefCountedSink around the mock channel (leave with requests in flight, re-join, leave again, drain): the shared connection is never closed while a request dispatched to it is outstanding and is closed once the endpoint departed and drained; 70% with fresh endpoint objects per notification; about 40% of the completions end with the frame above the balancer RAISING from its handler (the harness catches it where the transport greenlet would; the release must already have run) or issuing a follow-up request re-entrantly from inside its handler (recorded as Complete then Dispatch: the completed request must already be released); in 65% of the histories the real scales.sink.ClientTimeoutSink sits in front of the balancer (requests carry a deadline; scales.sink.GLOBAL_TIMER_QUEUE is a stub whose recorded action is run by a timeout completion, i.e. _TimeoutHelper itself completes the call); 15% use a provider with endpoint_name; seeded random histories over 1-12 members (+ up to 3 spare endpoints), 20-200 relative operations from phase profiles '
         'load-up / drain / churn (join+leave heavy) / flap / steady; completions by reply, error, time-out, fault (all requests '
         'of a channel), direct context call; second completions through a drained stack and through the context; removals of '
         'idle, loaded and marked-down members and re-joins of the same endpoint; 15% on ApertureBalancerSink with all members '
